@@ -132,6 +132,18 @@ def bank_invariant(table, e):
         elif not all({"n": ch in "0123456789", "a": "A" <= ch <= "Z", "c": ch in "0123456789ABCDEFGHIJKLMNOPQRSTUVWXYZ"}[k]
                      for k, ch in zip(want, code)):
             bad.append(f"bank_code {code!r} does not fit the classes {''.join(want)}")
+        elif "national_checksum_digits" in fields:
+            from contracts import national as N
+            nat = N.EXACT.get(cc)
+            if nat is not None:
+                b = ["0"] * s["bban_length"]
+                off = 0
+                for f in fields:
+                    a, e = pos.get(f, [0, 0])
+                    b[a:e] = code[off:off + (e - a)]
+                    off += e - a
+                if not nat("".join(b)):
+                    bad.append(f"bank_code {code!r} contains national check digits that violate the national rule")
     return bad
 
 
